@@ -98,3 +98,42 @@ package document
 //@   invariant encCount() == old(encCount()) + #i
 //@   invariant forall k int :: old(encCount()) <= k && k < encCount() ==> encAt(k) == otherElements[k - old(encCount())]
 //@   decreases len(otherElements) - #i
+
+// Section settings are found-or-created: getSectionProperties returns the FIRST section-properties element of
+// the body or appends a fresh one at the end; setSectionProperties replaces the first one or appends.
+// Neither ever adds a second one to a body that already has one, and all other elements stay in place.
+//@ spec firstSectAt(es []any, p int) bool = 0 <= p && p < len(es) && isSect(es[p]) && (forall q int :: 0 <= q && q < p ==> !isSect(es[q]))
+//@ spec noSect(es []any) bool = forall q int :: 0 <= q && q < len(es) ==> !isSect(es[q])
+
+// elemsOK: every body element is a non-nil pointer (what the constructors, the reader and every appender produce).
+//@ spec elemsOK(es []any) bool = forall j int :: 0 <= j && j < len(es) ==> ref(es[j]) != nil
+
+//@ func (*Document).getSectionProperties
+//@ props C08, C12
+//@ requires d != nil && (d.Body == nil || elemsOK(d.Body.Elements))
+//@ ensures d.Body != nil ==> elemsOK(d.Body.Elements)
+//@ ensures result != nil
+//@ ensures old(d.Body) == nil ==> unchangedHeap() && fresh(result)
+//@ ensures d.Body == old(d.Body)
+//@ ensures d.Body != nil && !old(noSect(d.Body.Elements)) ==> unchangedHeap() && (exists p int :: firstSectAt(d.Body.Elements, p) && d.Body.Elements[p].(*SectionProperties) == result)
+//@ ensures d.Body != nil && old(noSect(d.Body.Elements)) ==> fresh(result) && len(d.Body.Elements) == old(len(d.Body.Elements)) + 1 && isSect(d.Body.Elements[old(len(d.Body.Elements))]) && d.Body.Elements[old(len(d.Body.Elements))].(*SectionProperties) == result
+//@ ensures d.Body != nil ==> forall j int :: 0 <= j && j < old(len(d.Body.Elements)) ==> d.Body.Elements[j] == old(d.Body.Elements[j])
+//@ ensures unchangedExcept("Body.Elements", "cell:any")
+//@ loop 1
+//@   invariant 0 <= #i && #i <= len(d.Body.Elements) && unchangedHeap() && d.Body != nil
+//@   invariant forall q int :: 0 <= q && q < #i ==> !isSect(d.Body.Elements[q])
+//@   decreases len(d.Body.Elements) - #i
+
+//@ func (*Document).setSectionProperties
+//@ props C08, C06
+//@ requires d != nil
+//@ ensures sectPr == nil ==> unchangedHeap()
+//@ ensures sectPr != nil ==> d.Body != nil
+//@ ensures old(d.Body) != nil ==> d.Body == old(d.Body)
+//@ ensures sectPr != nil && old(d.Body) != nil && !old(noSect(d.Body.Elements)) ==> len(d.Body.Elements) == old(len(d.Body.Elements)) && (exists p int :: old(firstSectAt(d.Body.Elements, p)) && isSect(d.Body.Elements[p]) && d.Body.Elements[p].(*SectionProperties) == sectPr && (forall j int :: 0 <= j && j < len(d.Body.Elements) && j != p ==> d.Body.Elements[j] == old(d.Body.Elements[j])))
+//@ ensures sectPr != nil && old(d.Body) != nil && old(noSect(d.Body.Elements)) ==> len(d.Body.Elements) == old(len(d.Body.Elements)) + 1 && isSect(d.Body.Elements[old(len(d.Body.Elements))]) && d.Body.Elements[old(len(d.Body.Elements))].(*SectionProperties) == sectPr && (forall j int :: 0 <= j && j < old(len(d.Body.Elements)) ==> d.Body.Elements[j] == old(d.Body.Elements[j]))
+//@ ensures unchangedExcept("Document.Body", "Body.Elements", "cell:any")
+//@ loop 1
+//@   invariant 0 <= #i && #i <= len(d.Body.Elements) && unchangedHeap() && d.Body != nil
+//@   invariant forall q int :: 0 <= q && q < #i ==> !isSect(d.Body.Elements[q])
+//@   decreases len(d.Body.Elements) - #i
